@@ -4,6 +4,7 @@
 // The interpreter's invariant (script.h, ExecOpts::canon) compares, after every step, the new edge with
 // every held edge of the same forest: tables equal <=> edges == (checked in both directions and with !=).
 #include "script.h"
+#include "audit.h"
 using namespace V;
 
 static void run(Ctx& c) {
@@ -31,6 +32,43 @@ static void run(Ctx& c) {
     Config cfg = randomConfig(r, S.forests.size(), true);
     ExecOpts eo; eo.prop = "C01"; eo.auditEvery = 12; eo.canon = true; eo.reevalEvery = 10;
     RunResult rr = runScript(S, cfg, c, eo);
+    // EV* forests are not part of the scripts (their values are float products, so two routes may differ in rounding).  With values
+    // that are powers of two every product and quotient is exact, and canonicity can be asserted: the same table built from two
+    // minterm orders, once with every zero written as a double that underflows to 0 in single precision, must give one edge.
+    if (c.idx % 3 == 0) {
+        MEDDLY::initialize();
+        Shape sh = randomShape(r, 1, 3, 4, 16);
+        World w(sh);
+        reduction_rule RR[] = {reduction_rule::FULLY_REDUCED, reduction_rule::QUASI_REDUCED, reduction_rule::IDENTITY_REDUCED};
+        FSpec fs = mkSpec(true, range_type::REAL, edge_labeling::EVTIMES, RR[r.below(3)]); randomPolicy(r, fs);
+        forest* f = makeForest(w.dom, fs);
+        static const double P2[] = {0.5, 1, 2, 4, -0.5, -1, -2, -4, 0.25, 8};
+        std::vector<dd_edge> held; std::vector<Table> tabs;
+        int nt = r.range(2, 5);
+        for (int i = 0; i < nt; i++) {
+            std::vector<Val> alpha; int k = r.range(1, 4); for (int q = 0; q < k; q++) alpha.push_back(Val::re(P2[r.below(10)]));
+            if (r.chance(1, 2)) alpha.push_back(Val::re(0.0));
+            Table t = (i > 0 && r.chance(1, 3)) ? tabs[r.below(tabs.size())] : randomTable(r, w, fs, alpha);
+            dd_edge e1(f), e2(f);
+            phase("EV*:build:" + fs.kindStr());
+            buildAlong(r, w, f, fs, t, 0, e1, 0);
+            buildAlong(r, w, f, fs, t, 0, e2, 1);
+            Tol tl; tl.abs = 1e-12; tl.rel = 1e-6;
+            expectTable(w, e1, t, tl, "C01:EV*:wrong-value:" + fs.kindStr(), "EV* table built from minterms");
+            expectTable(w, e2, t, tl, "C01:EV*:wrong-value:" + fs.kindStr(), "EV* table built from minterms, zeros written as underflowing doubles");
+            if (e1 != e2 || !(e1 == e2)) throw Violation("C01:canonicity:equal-functions-different-edges:" + fs.kindStr(), "the same power-of-two valued table built twice (second time with zeros written as doubles that underflow to 0 in single precision) gives two edges: shape " + sh.str() + " table " + tableStr(t, 32) + " in " + fs.str());
+            for (size_t j = 0; j < held.size(); j++) {
+                bool teq = firstDiff(tabs[j], t) < 0, eeq = held[j] == e1;
+                if (teq != eeq) throw Violation(std::string("C01:canonicity:") + (teq ? "equal-functions-different-edges:" : "different-functions-equal-edges:") + fs.kindStr(), "EV* tables " + tableStr(tabs[j], 24) + " and " + tableStr(t, 24) + " shape " + sh.str() + " in " + fs.str());
+                c.count("evtimes_pairs_compared");
+            }
+            held.push_back(e1); tabs.push_back(t);
+        }
+        auditForest(f, fs.kindStr(), c, "C01");
+        held.clear();
+        c.count("evtimes_canonicity_cases");
+        MEDDLY::cleanup();
+    }
     uint64_t sig = hashstr(S.str().c_str()); for (auto& st : S.steps) sig = sig * 1000003ULL ^ uint64_t(st.k * 31 + st.op) ^ (st.table.empty() ? 0 : tableHash(st.table));
     c.sig = tos(sig);
     c.nontrivial = rr.eqPairsEqual > 0 && rr.eqPairsChecked > rr.eqPairsEqual;   // both directions of the iff were exercised
